@@ -24,6 +24,8 @@ def parseObs? (toks : List String) : Option Obs :=
   | ["recv", i, w, n] => do pure (.recv (← parseNat? i) (← parseNat? w) (← parseBool? n))
   | ["idle", i] => do pure (.idle (← parseNat? i))
   | ["close", i] => do pure (.close (← parseNat? i))
+  | ["stall", i] => do pure (.stall (← parseNat? i))
+  | ["resume", i] => do pure (.resume (← parseNat? i))
   | ["getpanic"] => some (.bad "Get/panic")
   | ["geterr"] => some (.bad "Get/error")
   | ["getunimpl"] => some (.bad "Get/unimplemented")
